@@ -122,8 +122,9 @@ def _unpickle(data, persistent_load):
 
 
 class Connection:
-    def __init__(self, storage, cache_size=100000):
+    def __init__(self, storage, cache_size=100000, clsmap=None):
         self.storage = storage
+        self.clsmap = clsmap        # class -> class actually instantiated (cross-implementation reads)
         self.cache = PickleCache(self, cache_size)
         self.registered = []
         self.read_current = {}
@@ -180,6 +181,8 @@ class Connection:
             return obj
         if cls is None:
             cls = self.storage.load(oid, self.snapshot)[1]
+        if self.clsmap is not None:
+            cls = self.clsmap(cls)
         obj = cls.__new__(cls)
         self.cache.new_ghost(oid, obj)
         return obj
@@ -346,10 +349,21 @@ class Connection:
         return [obj for oid, obj in self.cache.items()]
 
 
-def open_tree(storage, root_oid):
+def open_tree(storage, root_oid, clsmap=None):
     """Fresh connection (empty cache) and its view of the root object."""
-    conn = Connection(storage)
+    conn = Connection(storage, clsmap=clsmap)
     return conn, conn.get(root_oid)
+
+
+def impl_map(to_py):
+    """Class map that reads every BTrees record with the pure-Python (or the C) classes."""
+    import importlib
+
+    def m(cls):
+        mod = importlib.import_module(cls.__module__)
+        name = cls.__name__[:-2] if cls.__name__.endswith('Py') else cls.__name__
+        return getattr(mod, name + ('Py' if to_py else ''))
+    return m
 
 
 def selftest():
